@@ -99,7 +99,7 @@ func runWitness(repo string, w witness) (r witnessResult) {
 	}
 	spec := registry[w.Prop]
 	c := newCtx(w.Prop, "witness", p)
-	spec.run(c)
+	spec.runAll(c)
 	if spec.thorough != nil {
 		spec.thorough(c)
 	}
